@@ -204,7 +204,7 @@ func connectWithTimeout(c *girc.Client, d girc.Dialer) string {
 		}
 		return "err:" + err.Error()
 	case <-time.After(12 * time.Second):
-		c.Close()
+		go c.Close() // (in a goroutine: if Connect is stuck holding the client mutex, Close blocks as well)
 		return "timeout"
 	}
 }
